@@ -2,8 +2,8 @@
 # seed_recheck.sh <ID> [check ids...]: re-run the checks against an already confirmed seeded change
 # (/verif/seeded/<ID>/patch.diff) after the machinery was strengthened; updates meta.json "checks".
 set -u
-ID=$1; shift; CHECKS=${@:-$ID}
-OUT=/verif/seeded/$ID
+NAME=$1; ID=${NAME%%-*}; shift; CHECKS=${@:-$ID}
+OUT=/verif/seeded/$NAME
 S=/var/tmp/pd-seed-$ID; rm -rf $S; cp -r /repo $S; git -C $S apply $OUT/patch.diff || { echo "patch does not apply"; rm -rf $S; exit 2; }
 cd /verif; RES=""
 for c in $CHECKS; do
